@@ -66,8 +66,8 @@ CHECKS = {
             'leaves the scope of EVERY use and binding unchanged and renames exactly that variable\'s occurrences, for chains of any depth (side condition: no global/nonlocal for x, no class-body read before the class binds it; the latter shown necessary by a capture witness); '
             '(search) the candidate-merging loop of find_references invents nothing and keeps its start set, but is not transitively closed (witness). Tied to /repo per run on generated executable programs: Script.get_references from every occurrence vs the Coq specification '
             '(same identifier and same Python variable), same answer from every member (partition), Script.rename output vs the Coq splice model on the real leaves, rename back = original bytes, old and renamed program executed (same trace). '
-            'Deviations are accepted only under three model-computed classifiers (identifier outside the C03 fragment, late-bound use, rebound parameter).',
-            'Coq kernel + vm_compute; single-module programs only (cross-module discovery and file renames are covered by C07\'s streams, not modelled here); the scope-tree printer is harness code.'),
+            'A Gallina transcription of find_references itself predicts the reported set on every generated program (a listed deviation class - identifier outside the C03 fragment, late-bound use, rebound parameter - is accepted only when the observed set IS the predicted one); an oracle-only multi-module stream (import components across 2-4 modules: same set from every member, rename + execution of old vs new project, rename back) with three listed classes, each accepted only when the reported set equals what the proved merge loop returns on the captured inputs.',
+            'Coq kernel + vm_compute; the scope-tree model is single-module (the multi-module stream is oracle-only; file renames are C07\'s); the scope-tree printer is harness code.'),
     'C11': ('Coq proof that calculate_index is the preferred binding target of a relational model of Python argument binding; kinds, to_string round trip, docstring assembly + vm_compute correspondence with get_signatures and inspect',
             'Theorems (15, closed): get_kind equals the kind Python assigns for every valid parameter list without __ names (refutation for the __x convention); re-reading the / and * markers of to_string recovers names and kinds and the rendering is grammatical; '
             'calc_index = preferred target for well-formed signatures and star-free argument prefixes, sound and complete w.r.t. a Python-faithful relational Target (refutation: rebinding into **kw where Python raises); starred prefixes: partial statements and a refutation; docstring assembly. '
